@@ -4,7 +4,7 @@
    aiotarstream.py + extract_tar_stream as they are now in /repo (after the fix: commits 733cb27, 9f2640a);
    [true] is the code before them.  A stream is the list of chunks the underlying reader delivers. *)
 From Coq Require Import List NArith Lia.
-From SF Require Import TarStream.Model TarStream.Proofs TarStream.Trunc TarStream.Roundtrip TarStream.Frombuf TarStream.RoundtripS TarStream.Links TarStream.Prefix.
+From SF Require Import TarStream.Model TarStream.Proofs TarStream.Trunc TarStream.Roundtrip TarStream.Frombuf TarStream.RoundtripS TarStream.Links TarStream.Prefix TarStream.WriterChunk.
 Import ListNotations.
 Local Open Scope N_scope.
 
@@ -164,7 +164,11 @@ Proof. exact links_example. Qed.
    exactly like the whole run or with a normal return.  C23_truncation_boundary says when that normal return with
    members missing can happen: only when next(), called at a non-zero offset, got fewer than 512 bytes for the
    header block (cut at a header boundary or inside a later header) — the known header-level leniency; a cut
-   anywhere else (data, padding, long-name payload, first header) is ReadError. ---- *)
+   anywhere else (data, padding, long-name payload, first header) is ReadError.  Since PAX extended headers are
+   in the model, lenient_end has a second, weaker alternative: the stream ended inside a PAX payload whose
+   remaining records parse as invalid (a zero-length record) — whether a real cut can produce that is not
+   analysed.  cut_ok also allows Hang = the model's own fuel ran out (NxFuel), which the fuel given by
+   members_flat never does in the correspondence; fuel-irrelevance is not proved. ---- *)
 Theorem C23_truncation_prefix : forall fuel d k,
   cut_ok (members bytes fread fskip false fuel 0 {| pos := 0; und := d |} [])
          (members bytes fread fskip false fuel 0 {| pos := 0; und := takeN k d |} []).
@@ -173,13 +177,31 @@ Theorem C23_truncation_boundary : forall fuel off rf rt h od no,
   Sync rf rt ->
   fst (next bytes fread fskip false fuel off rf) = NxMem h od no ->
   fst (next bytes fread fskip false fuel off rt) = NxNone ->
-  lenient_end off rt.
+  lenient_end fuel off rt.
 Proof. exact truncation_boundary. Qed.
 Example C23_truncation_prefix_example :
   names (members_flat ex_dir) = (Done, [(d_, 0); (da, 700); (db, 5)])
   /\ names (members_flat (takeN 2148 ex_dir)) = (Done, [(d_, 0); (da, 700)])
   /\ fst (members_flat (takeN 1800 ex_dir)) = ReadError.
 Proof. split; [exact ex_dir_members|split; [exact ex_cut_in_header|exact ex_cut_in_padding]]. Qed.
+
+(* ---- writer side of chunking: StreamWrapper.write has no partial-write protocol (write(data); drain()), so
+   the chunking the writer is exposed to is how the SOURCE of a member delivers its data (aiotarstream.write's
+   loop over short reads) and copybufsize: the bytes copied into the archive are the first [size] bytes of the
+   source whatever the sizes of its reads and whatever the buffer size. ---- *)
+Theorem C23_writer_chunking : forall (s1 s2 : stream) size bs1 bs2 p1 p2,
+  concat s1 = concat s2 -> nonempty s1 -> nonempty s2 -> 0 < bs1 -> 0 < bs2 -> size <= lenN (concat s1) ->
+  fst (fst (copyfileobj stream raw_read false (S (length s1 + N.to_nat size)) size bs1 {| pos := p1; und := s1 |} []))
+  = Done
+  /\ snd (fst (copyfileobj stream raw_read false (S (length s1 + N.to_nat size)) size bs1 {| pos := p1; und := s1 |} []))
+     = takeN size (concat s1)
+  /\ fst (copyfileobj stream raw_read false (S (length s2 + N.to_nat size)) size bs2 {| pos := p2; und := s2 |} [])
+     = fst (copyfileobj stream raw_read false (S (length s1 + N.to_nat size)) size bs1 {| pos := p1; und := s1 |} []).
+Proof. exact writer_chunking. Qed.
+Example C23_writer_chunking_example :
+  snd (fst (copyfileobj stream raw_read false 20 5 2 {| pos := 0; und := [[1;2];[3];[4;5;6;7]] |} [])) = [1;2;3;4;5]
+  /\ snd (fst (copyfileobj stream raw_read false 20 5 16384 {| pos := 0; und := [[1;2;3;4;5;6;7]] |} [])) = [1;2;3;4;5].
+Proof. vm_compute. split; reflexivity. Qed.
 
 Print Assumptions C23_chunking. Print Assumptions C23_chunking_reference. Print Assumptions C23_chunking_members.
 Print Assumptions C23_read_is_the_python_loop. Print Assumptions C23_read_exact.
@@ -194,3 +216,4 @@ Print Assumptions C23_roundtrip. Print Assumptions C23_roundtrip_chunked. Print 
 Print Assumptions C23_roundtrip_octal_field. Print Assumptions C23_roundtrip_string_field.
 Print Assumptions C23_symlink_target_verbatim. Print Assumptions C23_hardlink_target_relative.
 Print Assumptions C23_truncation_prefix. Print Assumptions C23_truncation_boundary.
+Print Assumptions C23_writer_chunking.
